@@ -5,8 +5,11 @@ import common as C
 import wiregen as W
 
 BOUND_SLACK = 64 * 1024      # the property's "tens of kilobytes": allocation <= message size + 64 KiB
-LARGE = 4096                 # messages above this size: the property's "never megabytes" (allocation <= 1 MiB; they are <= 32 KiB)
-MEGABYTE = 1024 * 1024
+LARGE = 4096                 # the literal line (size + 64 KiB) is applied to messages up to this size
+PER_BYTE = 32                # every size: allocation <= 64 KiB + PER_BYTE x (bytes the decoder actually consumed) + PER_REQ x requests
+PER_BYTE_ZAP = 64            # ... with a real zap core (logger.With encodes its fields eagerly; control bytes expand six-fold)
+PER_REQ = 1024               # one StorageRequest + one timer of TimeoutSendStorageRequest per request emitted
+MODEL_MAX = 40 * 1024        # the extracted model is quadratic in the message length: larger messages run on the implementation only
 
 
 def case_bytes(case):
@@ -30,10 +33,17 @@ def oracle(case, impl_line):
     f = info.split()
     if len(f) >= 3 and f[0] == "A":
         alloc, size = int(f[1]), int(f[2])
-        if size <= LARGE and alloc > size + BOUND_SLACK:
+        zap = case.split()[3].endswith("Z")
+        if not zap and size <= LARGE and alloc > size + BOUND_SLACK:
             return "allocated %d bytes for a message of %d bytes (bound: size + %d)" % (alloc, size, BOUND_SLACK)
-        if size > LARGE and len(reqs) <= 50 and alloc > MEGABYTE:
-            return "allocated %d bytes (megabytes) for a message of %d bytes that yields %d requests" % (alloc, size, len(reqs))
+        consumed, want_reqs = W.walk(allow, deny, key, value)
+        if want_reqs == len(reqs):
+            per = PER_BYTE_ZAP if zap else PER_BYTE
+            line = BOUND_SLACK + per * consumed + PER_REQ * len(reqs)
+            if alloc > line:
+                return ("allocated %d bytes for a message of %d bytes of which the decoder consumed %d and which yields %d "
+                        "requests (bound: %d + %d x consumed + %d x requests = %d)%s"
+                        % (alloc, size, consumed, len(reqs), BOUND_SLACK, per, PER_REQ, line, " [real zap core]" if zap else ""))
     cluster = case_cluster(case)
     for r in reqs:
         if r.split()[1] != W.hx(cluster):
@@ -77,29 +87,67 @@ def run(chk, failed):
         cases.append(ln)
         tags.append(tg)
     for i in range(nlarge):
-        ln, tg = W.gen_large(chk.rng)
+        ln, tg = W.gen_large(chk.rng) if i % 4 else W.gen_commit_long(chk.rng)
         cases.append(ln)
         tags.append(tg)
+    # 64 KiB - 1 MiB (Kafka's default message.max.bytes): on the implementation only (the extracted model is quadratic in the
+    # message length); every filler shape at five sizes, plus maximal commits with and without a real zap core
+    huge, huge_tags = [], []
+    for size in (64 * 1024, 128 * 1024, 256 * 1024, 600 * 1024, 1000 * 1000):
+        for shape in ("bad-first-topic", "topics-zero-filler", "topics-named-filler", "subscription-blob", "random-filler", "strings"):
+            if chk.thorough or shape in ("bad-first-topic", "topics-named-filler") or size in (128 * 1024, 1000 * 1000):
+                ln, tg = W.gen_large(chk.rng, size, size, shape)
+                huge.append(ln)
+                huge_tags.append(["huge", tg[1]])
+    for zap in (False, True):
+        ln, tg = W.gen_commit_long(chk.rng, 32767, zap)
+        huge.append(ln)
+        huge_tags.append(["huge", tg[1]])
     chk.rule = ("hostile offsets-topic messages. (1) sweeps: for one small well-formed message per kind and version (offset key v0/v1 x "
                 "value v0/v1/v3, metadata value v0..v3 with two members) every truncation of key and of value at every byte "
                 "boundary, every version field over -1..5, every length / count field over the special values below computed "
                 "against both the enclosing assignment and the whole buffer. (2) random: 80% structure-aware (a small well-formed offset commit / group metadata message "
                 "of a random version, then truncated at a byte boundary, or a version field set to -1..5, or one or two length / "
                 "count fields set to -2,-1,0,1,remaining-1,remaining,remaining+1,remaining/4(+1),remaining/6(+1),32767,65536,2^24,"
-                "2^29,2^31-1,-2^31), 20% random bytes. (3) large: 8-32 KiB metadata values in which a count / length promises far more "
-                "than is present, followed by filler (zero topics, named topics, a skipped subscription blob, random bytes, maximal "
-                "strings). Each runs through the real processConsumerOffsetsMessage in a child process "
+                "2^29,2^31-1,-2^31), 20% random bytes; a quarter of them on a module with a real zap core (output discarded). (3) large: "
+                "8-32 KiB metadata values in which a count / length promises far more than is present, followed by filler (an "
+                "undecodable first topic, zero topics, distinct named topics, a skipped subscription blob, random bytes, maximal "
+                "strings), and well-formed commits with 500-32767-byte strings of control / printable bytes. (4) huge: the same "
+                "shapes at 64 KiB - 1 MB (Kafka's default message.max.bytes), on the implementation only. Each runs through the real processConsumerOffsetsMessage in a child process "
                 "under ulimit -v 4 GiB (journal before execute; a dead child is an observation) and through the model; checked on "
-                "the implementation: no panic / death, TotalAlloc delta <= message size + 64 KiB (messages up to 4 KiB; larger ones, "
-                "which yield at most 50 requests: <= 1 MiB, the property's `never megabytes`), at most one update per commit "
+                "the implementation: no panic / death; TotalAlloc delta <= message size + 64 KiB (nop logger, messages up to 4 KiB) and, "
+                "for every size and logger, <= 64 KiB + 32 (real zap core: 64) x bytes the decoder actually consumed (an independent "
+                "walk of the message) + 1 KiB x requests emitted - nothing for what a message merely announces; at most one update per commit "
                 "and only for a commit whose fields a strict reader finds complete, carrying exactly those fields, every request "
                 "addressed to the module's configured cluster (the module's own name differs from it in 4 of 6 configurations); "
                 "non-trivial = the key carries a known version (0, 1 or 2), i.e. decoding goes past the dispatch; "
                 "distinct by the case line")
     impl, model, mism = chk.differential("wire", "wire", "TestVerifProbeWire", cases, name="hostile", project=W.project)
+    himpl = chk.run_impl("wire", "TestVerifProbeWire", huge, name="huge")
+    chk.evaluations += len(huge)
+    chk.traces_validated += len(huge)
     verdicts = []
     max_over = None
     max_large = 0
+    worst_ratio = 0.0
+    reported = 0
+    for i, (c, tg, a) in enumerate(zip(huge, huge_tags, himpl)):
+        chk.count("kind:huge")
+        chk.count("mutation:" + tg[1])
+        chk.nontrivial.add(C.case_hash(c))
+        st, reqs, info = W.parse_out(a)
+        f = info.split()
+        if len(f) >= 3 and f[0] == "A" and int(f[2]):
+            worst_ratio = max(worst_ratio, int(f[1]) / int(f[2]))
+        why = oracle(c, a)
+        if why and reported < 3:
+            reported += 1
+            chk.violation("huge_%d" % i, {"kind": "input", "probe": "consumer/TestVerifProbeWire", "case": c,
+                                          "impl_output": a, "model_output": "(not run: message too large for the extracted model)",
+                                          "oracle_verdict": why, "broken": "C06 on the implementation (memory)",
+                                          "cmd": "bin/check C06 --replay <this file>"})
+    chk.notes.append("huge messages (64 KiB - 1 MB): largest TotalAlloc delta / message size = %.2f (a message packed with distinct "
+                     "topic entries that are really decoded; an undecodable one allocates about 1.4 KB whatever its size)" % worst_ratio)
     for c, tg, a in zip(cases, tags, impl):
         if nontrivial(c):
             chk.nontrivial.add(C.case_hash(c))
@@ -116,10 +164,9 @@ def run(chk, failed):
                 max_large = max(max_large, int(f[1]))
         verdicts.append(oracle(c, a))
     chk.notes.append("largest measured TotalAlloc delta minus message size over this run (messages <= %d bytes): %s bytes (bound %d); "
-                     "largest TotalAlloc delta on the large messages: %d bytes (bound %d)" % (LARGE, max_over, BOUND_SLACK, max_large, MEGABYTE))
+                     "largest TotalAlloc delta on the 4-40 KiB messages yielding <= 50 requests: %d bytes" % (LARGE, max_over, BOUND_SLACK, max_large))
     for i in (0, len(cases) // 3, 2 * len(cases) // 3, len(cases) - 1 - nlarge):
         chk.sample({"case": cases[i][:500], "impl": impl[i][:500], "model": model[i][:500]})
-    reported = 0
     # crash, allocation beyond the property's bound or an update for a malformed commit is directly the violation
     for i, why in enumerate(verdicts):
         if why is None or reported >= 5:
@@ -143,13 +190,19 @@ def run(chk, failed):
                                      "detail": [d for _, d in failed]}, found_input=False)
     chk.assumptions += [
         "processConsumerOffsetsMessage is driven directly (symbol pinned by TestKafkaClient_processConsumerOffsetsMessage_*) on a "
-        "module built like fixtureModule() with a nop logger; App.StorageChannel is buffered",
-        "memory: the theorem bounds the sizes passed to make (process_alloc_bounded); the footprint of the Go runtime (map growth, "
-        "timers of TimeoutSendStorageRequest, logger fields) is covered by the measured runtime.MemStats.TotalAlloc delta against "
-        "message size + 64 KiB on the generated messages up to 4 KiB and against 1 MiB on the 8-32 KiB ones, not by proof.  For "
-        "arbitrarily large messages the property's `tens of kilobytes` cannot hold of any decoder that builds Go values from the "
-        "message (a genuine 1 MB group-metadata message decodes into several MB of strings, map entries and requests); the theorem "
-        "gives the bound that does hold for every size: make sizes <= key + 9 x value",
+        "module built like fixtureModule() (nop logger, or a real zap core where the case says so); App.StorageChannel is buffered",
+        "memory, PROVED: the sizes the decoder itself passes to make / string conversion (strings, partition slices; the map is "
+        "not pre-sized) add up to at most the message size, and per member to at most the bytes consumed (process_alloc_bounded, "
+        "member_alloc_le_consumed).  MEASURED on the real decoder (runtime.MemStats.TotalAlloc delta, single goroutine, nop logger "
+        "and - for a quarter of the random stream and the long commits - a real zap core writing to io.Discard): size + 64 KiB for "
+        "messages up to 4 KiB, and 64 KiB + 32 x consumed + 1 KiB x requests for every size up to 1 MB (64 x with the zap core: "
+        "logger.With(group, topic, ...) encodes its fields eagerly for every message, logged or not, and JSON-escapes control "
+        "bytes six-fold: a well-formed 65 KB commit of 0x01 bytes allocates 2.0 MB, 31 x its size; reported in findings/C06.json "
+        "as an observation).  NEITHER: a bound that does not depend on what the message really contains - a genuine large "
+        "group-metadata message yields a request and a timer per partition and a map entry per topic",
+        "`consumed` and the expected number of requests come from wiregen.walk, an independent Python walk of key and value in "
+        "the decoder's order; where its request count differs from the implementation's the consumed-based line is not applied "
+        "(the differential against the model still is)",
         "a fatal runtime error (out of memory) cannot be recovered in Go: it is observed as the death of the child process",
     ]
 
